@@ -10,14 +10,14 @@ T_ALL = list(range(20))
 def conds(tier):
     q = tier == "quick"
     out = []
-    out.append(Cond("tree", core.mk_tree(P, 3, 2, 2), core.tree_params(3, 2, 2), pin=3, budget=120,
+    out.append(Cond("tree", core.mk_tree(P, 3, 2, 2), core.tree_params(3, 2, 2), builds=("C", "P"), pin=3, budget=120,
                     family="F-TREE(3,2,2)", encodes=core.ENC_SCHED))
     out.append(core.shape_cond("shape", P, T_QUICK if q else T_ALL, fam.OK_MENU, 3 if q else 4,
                                budget=200 if q else 900))
-    out.append(Cond("steps", core.mk_steps(P, 2, 3), core.steps_params(2, 3), pin=2, budget=120,
+    out.append(Cond("steps", core.mk_steps(P, 2, 3), core.steps_params(2, 3), builds=("C", "P"), pin=2, budget=120,
                     family="F-STEPS(2,3)", encodes=core.ENC_SCHED))
-    out.append(core.seq_cond("seq", P, 3, 2))
-    out.append(Cond("dag", core.mk_dag(P), core.DAG_PARAMS, pin=3, budget=120, family="F-DAG",
+    out.append(core.seq_cond("seq", P, 3, 2, builds=("C", "P")))
+    out.append(Cond("dag", core.mk_dag(P), core.DAG_PARAMS, builds=("C", "P"), pin=3, budget=120, family="F-DAG",
                     encodes=core.ENC_SCHED))
     out.append(Cond("reentry", core.mk_reentry(P), core.REENTRY_PARAMS, pin=3, budget=150,
                     family="F-REENTRY", encodes=core.ENC_SCHED))
